@@ -512,6 +512,10 @@ class Executor:
             if not isinstance(v, SExc):
                 raise ToolLimit('raise of %r' % (v,))
             v.origin = v.origin or 'L%d' % stmt.lineno
+            if stmt.cause is not None and isinstance(stmt.cause, ast.Name) and v.cause is None:
+                c = s.locals.get(stmt.cause.id)          # `raise X(...) from e`: remember what it was raised from
+                if isinstance(c, SExc):
+                    v.cause = c
             out.append((s, ('raise', v)))
         return out
 
